@@ -96,11 +96,15 @@ def txRoot (H : Bytes → Bytes) (minerTxHash : Bytes) (txHashes : List Bytes) :
 the number of listed transaction hashes: `header ‖ root ‖ varint(1 + n)` -/
 def blobOf (hdr : Bytes) (root : Bytes) (nHashes : Nat) : Bytes := hdr ++ root ++ encVarint (nHashes + 1)
 
-/-- `Block::serialize_header_and_root` / `Block::serialize_hashable` (block.rs:112-126) -/
-def serializeHashable (H : Bytes → Bytes) (hdr minerTxHash : Bytes) (txHashes : List Bytes) : Option Bytes :=
+/-- the private `Block::serialize_header_and_root` (block.rs:112-120): serialised header, `self.tx_root()`, `varint(1 + len)` -/
+def serializeHeaderAndRoot (H : Bytes → Bytes) (hdr minerTxHash : Bytes) (txHashes : List Bytes) : Option Bytes :=
   match txRoot H minerTxHash txHashes with
   | none => none
   | some root => some (blobOf hdr root txHashes.length)
+
+/-- the public `Block::serialize_hashable` (block.rs:123-126): `self.serialize_header_and_root()` -/
+def serializeHashable (H : Bytes → Bytes) (hdr minerTxHash : Bytes) (txHashes : List Bytes) : Option Bytes :=
+  serializeHeaderAndRoot H hdr minerTxHash txHashes
 
 /-- the tail of `Block::id` (block.rs:129-140) on the blob: `hash = H(varint(len blob) ‖ blob)`, then the block-202612
 substitution. The two constants `CORRECT_BLOCK_ID_202612`, `EXISTING_BLOCK_ID_202612` are parameters. -/
@@ -109,10 +113,10 @@ def blockIdOf (H : Bytes → Bytes) (correct existing : Bytes) (blob : Bytes) : 
   let hash := H out
   if hash = correct then existing else hash
 
-/-- `Block::id` (block.rs:129-140) -/
+/-- `Block::id` (block.rs:129-140); like the code it calls the private `serialize_header_and_root`, not the public wrapper -/
 def blockId (H : Bytes → Bytes) (correct existing : Bytes) (hdr minerTxHash : Bytes) (txHashes : List Bytes) :
     Option Bytes :=
-  match serializeHashable H hdr minerTxHash txHashes with
+  match serializeHeaderAndRoot H hdr minerTxHash txHashes with
   | none => none
   | some blob => some (blockIdOf H correct existing blob)
 
